@@ -185,17 +185,21 @@ structure PoolResult where
   allRoll : Int
   rounds : Int
   text : String
+  charged : Int := 0      -- dice charged to the operation counter (one charge per round, before the round is rolled)
+  over : Bool := false    -- the budget ran out at the start of a round: the roll was aborted, the other fields are void
   deriving Repr
 
 /-- result of a round loop: `none` = word list exhausted, `some none` = fuel exhausted (Go would still be looping) -/
 abbrev LoopOut (α : Type) := Option (Option (α × List Nat))
 
 /-- the round loop of RollWoD. `fuel` bounds the number of rounds. -/
-def wodLoop (addLine points threshold : Int) (isGE : Bool) (mode : Int) :
-    Nat → Int → Int → Int → Int → Bool → List String → List Nat →
-    LoopOut (Int × Int × Int × List String)
-  | 0, _, _, _, _, _, _, _ => some none
-  | fuel+1, pool, succ, allRoll, addTimes, show_, details, ws =>
+def wodLoop (addLine points threshold : Int) (isGE : Bool) (mode : Int) (budget : Option Int) :
+    Nat → Int → Int → Int → Int → Int → Bool → List String → List Nat →
+    LoopOut (Int × Int × Int × List String × Int × Bool)
+  | 0, _, _, _, _, _, _, _, _ => some none
+  | fuel+1, charged, pool, succ, allRoll, addTimes, show_, details, ws =>
+    let charged := charged + pool
+    if (match budget with | some b => decide (charged > b) | none => false) then some (some ((0, 0, 0, [], charged, true), ws)) else
     match wodRound addLine points threshold isGE mode pool.toNat ws with
     | none => none
     | some ((s, a, ts), ws') =>
@@ -204,19 +208,20 @@ def wodLoop (addLine points threshold : Int) (isGE : Bool) (mode : Int) :
       let (addTimes', pool') := if a > 0 then (addTimes + 1, a) else (addTimes, pool)
       let (show', details) := if allRoll > 100 then (false, []) else (show_, details)
       let details := if show' then details ++ ["{" ++ joinWith "," ts ++ "}"] else details
-      if a > 0 then wodLoop addLine points threshold isGE mode fuel pool' succ allRoll addTimes' show' details ws'
-      else some (some ((succ, allRoll, addTimes', details), ws'))
+      if a > 0 then wodLoop addLine points threshold isGE mode budget fuel charged pool' succ allRoll addTimes' show' details ws'
+      else some (some ((succ, allRoll, addTimes', details, charged, false), ws'))
 
 /-- RollWoD -/
-def rollWoD (fuel : Nat) (addLine pool points threshold : Int) (isGE : Bool) (mode : Int) (ws : List Nat) :
-    LoopOut PoolResult :=
-  match wodLoop addLine points threshold isGE mode fuel pool 0 pool 1 (pool < 15) [] ws with
+def rollWoD (fuel : Nat) (addLine pool points threshold : Int) (isGE : Bool) (mode : Int) (ws : List Nat)
+    (budget : Option Int := none) : LoopOut PoolResult :=
+  match wodLoop addLine points threshold isGE mode budget fuel 0 pool 0 pool 1 (pool < 15) [] ws with
   | none => none
   | some none => some none
-  | some (some ((succ, allRoll, addTimes, details), ws')) =>
+  | some (some ((_, _, _, _, charged, true), ws')) => some (some ({ value := 0, allRoll := 0, rounds := 0, text := "", charged := charged, over := true }, ws'))
+  | some (some ((succ, allRoll, addTimes, details, charged, false), ws')) =>
     let roundsText := if addTimes > 1 then " 轮数:" ++ toString addTimes else ""
     let detailText := if details.length > 0 then " " ++ joinWith "," details else ""
-    some (some ({ value := succ, allRoll := allRoll, rounds := addTimes,
+    some (some ({ value := succ, allRoll := allRoll, rounds := addTimes, charged := charged,
                   text := "成功" ++ toString succ ++ "/" ++ toString allRoll ++ roundsText ++ detailText }, ws'))
 
 /-- one Double Cross round: returns (highest die, addCount, shown dice) -/
@@ -235,11 +240,13 @@ def dcRound (addLine points : Int) (mode : Int) :
       | none => none
       | some ((m, a, ts), ws'') => some ((m, (if reachAdd then 1 else 0) + a, t :: ts), ws'')
 
-def dcLoop (addLine points : Int) (mode : Int) :
-    Nat → Int → Int → Int → Int → Bool → List String → List Nat →
-    LoopOut (Int × Int × Int × List String)
-  | 0, _, _, _, _, _, _, _ => some none
-  | fuel+1, pool, result, allRoll, addTimes, show_, details, ws =>
+def dcLoop (addLine points : Int) (mode : Int) (budget : Option Int) :
+    Nat → Int → Int → Int → Int → Int → Bool → List String → List Nat →
+    LoopOut (Int × Int × Int × List String × Int × Bool)
+  | 0, _, _, _, _, _, _, _, _ => some none
+  | fuel+1, charged, pool, result, allRoll, addTimes, show_, details, ws =>
+    let charged := charged + pool
+    if (match budget with | some b => decide (charged > b) | none => false) then some (some ((0, 0, 0, [], charged, true), ws)) else
     match dcRound addLine points mode pool.toNat 0 ws with
     | none => none
     | some ((mx, a, ts), ws') =>
@@ -249,19 +256,20 @@ def dcLoop (addLine points : Int) (mode : Int) :
       let (addTimes', pool') := if a > 0 then (addTimes + 1, a) else (addTimes, pool)
       let (show', details) := if allRoll > 100 then (false, []) else (show_, details)
       let details := if show' then details ++ ["{" ++ joinWith "," ts ++ "}"] else details
-      if a > 0 then dcLoop addLine points mode fuel pool' result allRoll addTimes' show' details ws'
-      else some (some ((result, allRoll, addTimes', details), ws'))
+      if a > 0 then dcLoop addLine points mode budget fuel charged pool' result allRoll addTimes' show' details ws'
+      else some (some ((result, allRoll, addTimes', details, charged, false), ws'))
 
 /-- RollDoubleCross -/
-def rollDC (fuel : Nat) (addLine pool points : Int) (mode : Int) (ws : List Nat) : LoopOut PoolResult :=
-  match dcLoop addLine points mode fuel pool 0 pool 1 (pool < 15) [] ws with
+def rollDC (fuel : Nat) (addLine pool points : Int) (mode : Int) (ws : List Nat) (budget : Option Int := none) : LoopOut PoolResult :=
+  match dcLoop addLine points mode budget fuel 0 pool 0 pool 1 (pool < 15) [] ws with
   | none => none
   | some none => some none
-  | some (some ((result, allRoll, addTimes, details), ws')) =>
+  | some (some ((_, _, _, _, charged, true), ws')) => some (some ({ value := 0, allRoll := 0, rounds := 0, text := "", charged := charged, over := true }, ws'))
+  | some (some ((result, allRoll, addTimes, details, charged, false), ws')) =>
     let detailText := if details.length > 0 then " " ++ joinWith "," details else ""
     let roundsText := if addTimes > 1 then " 轮数:" ++ toString addTimes else ""
     let pre := if result == 1 then "大失败 出目" else "出目"
-    some (some ({ value := result, allRoll := allRoll, rounds := addTimes,
+    some (some ({ value := result, allRoll := allRoll, rounds := addTimes, charged := charged,
                   text := pre ++ toString result ++ "/" ++ toString allRoll ++ roundsText ++ detailText }, ws'))
 
 end DS.Roll
